@@ -203,6 +203,7 @@ func (r polyline) draw(dst backend.Canvas, _ *attributes, _ *SVGImage, _ drawing
 		dst.LineTo(point.x, point.y)
 		angle := atan2(point.y-oldPoint.y, point.x-oldPoint.x)
 		vertices = append(vertices, vertex{point.x, point.y, angle})
+		oldPoint = point
 	}
 
 	if r.close {
